@@ -295,13 +295,14 @@ fn check(id: u8, tier: &str) -> i32 {
         }
         16 => props_build::run_c16(tier, deadline, &mut st, &mut log),
         15 | 20 => {
+            // runs inside runs first: cheap, and never cut by the cap
+            let (spaces, focus) = props_run::nested_run_spaces(id, tier);
+            explore_spaces(&spaces, &focus, deadline, &mut st, &mut log);
             if id == 15 {
                 props_hist::run_c15(tier, deadline, &mut st, &mut log);
             } else {
                 props_hist::run_c20(tier, deadline, &mut st, &mut log);
             }
-            let (spaces, focus) = props_run::nested_run_spaces(id, tier);
-            explore_spaces(&spaces, &focus, deadline, &mut st, &mut log);
         }
         _ => {
             eprintln!("fgv: property C{id:02} has no check (see MANIFEST.json not_applicable)");
